@@ -35,6 +35,14 @@ def build_cases(rnd, thorough):
         for p, q in cmpgen.two_component_pairs(g, 3000 if thorough else 160):
             a, b = Gen.compose(p).encode(), Gen.compose(q).encode()
             cases.append((fam + 'ref', a, b)); cases.append((fam, a, b))
+        # a one-character path directly followed by a query / fragment that contains path-like text
+        QF = ['a/b', 'a%2Fb', 'x/..', 'y/..', '/', '', '../a', 'a/./b']
+        for d in ('?', '#'):
+            for q1, q2 in itertools.product(QF, repeat=2):
+                for pre in ('s:/', 's:', 's://h/', '/'):
+                    a, b = (pre + d + q1).encode(), (pre + d + q2).encode()
+                    cases.append((fam + 'ref', a, b))
+                    if pre.startswith('s:'): cases.append((fam, a, b))
         for comp, vocab in cmpgen.COMPONENT_VOCAB.items():
             kind = comp if comp in ('scheme', 'port') else fam[0] + comp
             if comp in ('scheme', 'port') and fam == 'iri':
